@@ -102,12 +102,25 @@ func (server *SugarDB) Flush(database int) {
 			server.lruCache.cache[db].Flush()
 			server.lruCache.cache[db].Mutex.Unlock()
 		}
+		// No key is left: nothing is accounted for any more.
+		server.memUsed = 0
 		return
 	}
 
 	// A database that was never written to has no store and no caches yet: nothing to flush.
 	if server.store[database] == nil {
 		return
+	}
+
+	// Deduct the memory accounted for the keys of the database from the tracker, as deleteKey does for one key.
+	for key, data := range server.store[database] {
+		mem, err := data.GetMem()
+		if err != nil {
+			continue
+		}
+		server.memUsed -= mem
+		server.memUsed -= int64(unsafe.Sizeof(key))
+		server.memUsed -= int64(len(key))
 	}
 
 	// Clear db store.
